@@ -107,3 +107,82 @@ def gen_positive_query(rng, depth, cp_only=False):
     kind = rng.choice(["and", "or", "or"])
     return {"k": kind, "neg": False,
             "xs": [gen_positive_query(rng, depth - 1, cp_only) for _ in range(rng.choice([2, 2, 3]))]}
+
+
+# -- clauses that all name ONE category (the single-candidate shortcut of candidate selection) -------------------
+def _pkg_matcher(rng, names):
+    """A package-name matcher built around names that occur in the repository: exact, prefix/suffix glob,
+    anchored regex alternative, or a value-level negated exact match."""
+    n = rng.choice(names)
+    r = rng.random()
+    if r < 0.3:
+        return {"k": "exact", "s": n, "neg": False}
+    if r < 0.5:
+        return {"k": "glob", "s": n[: rng.choice([1, 1, 2])], "prefix": True, "neg": False}
+    if r < 0.6:
+        return {"k": "glob", "s": n[-1:], "prefix": False, "neg": False}
+    if r < 0.8:
+        return {"k": "re", "lit": n[: rng.choice([1, 2, 3])], "bol": True, "eol": False, "match": rng.random() < 0.5, "neg": False}
+    return {"k": "exact", "s": n, "neg": True}
+
+
+def gen_same_category_query(rng, cpv_dict):
+    """any-of over clauses that all constrain category AND package and name the same category exactly:
+    atoms `c/p`, `category==c && package <matcher>`, or the factored form `category==c && (pkg || pkg)`.
+    Names come from the repository so that the clauses really select different packages."""
+    cats = [c for c, pk in cpv_dict.items() if pk] or list(cpv_dict) or CATS[:1]
+    c = rng.choice(cats)
+    names = list(cpv_dict.get(c, {})) or PKGS[:2]
+    names = names + [rng.choice(PKGS)]
+    cat = {"k": "pr", "attr": "category", "neg": False, "v": {"k": "exact", "s": c, "neg": False}}
+
+    def pkg():
+        return {"k": "pr", "attr": "package", "neg": False, "v": _pkg_matcher(rng, names)}
+
+    if rng.random() < 0.3:
+        return {"k": "and", "neg": False,
+                "xs": [cat, {"k": "or", "neg": False, "xs": [pkg() for _ in range(rng.choice([2, 2, 3]))]}]}
+    clauses = []
+    for _ in range(rng.choice([2, 2, 3])):
+        if rng.random() < 0.4:
+            clauses.append({"k": "atom", "s": "%s/%s" % (c, rng.choice(names))})
+        else:
+            xs = [cat, pkg()]
+            if rng.random() < 0.5:
+                xs.reverse()
+            clauses.append({"k": "and", "neg": False, "xs": xs})
+    return {"k": "or", "neg": False, "xs": clauses}
+
+
+# -- mutation histories ------------------------------------------------------------------------------------------
+def gen_mutation(rng, cpv_dict):
+    """One notify_add_package / notify_remove_package step respecting the preconditions (add only an absent
+    cpv, remove only a present one): ("add"|"remove", category, package, version)."""
+    present = [(c, p, v) for c, pk in cpv_dict.items() for p, vs in pk.items() for v in vs]
+    r = rng.random()
+    if r < 0.3 and present:
+        return ("remove",) + rng.choice(present)
+    for _ in range(20):
+        if r < 0.65 and cpv_dict:
+            # a package name that is new to an existing category
+            c = rng.choice(list(cpv_dict))
+            absent = [p for p in PKGS if p not in cpv_dict[c]]
+            if not absent:
+                continue
+            step = ("add", c, rng.choice(absent), rng.choice(VERS))
+        elif r < 0.85 and present:
+            # a new version of an existing package
+            c, p, _v = rng.choice(present)
+            absent = [v for v in VERS if v not in cpv_dict[c][p]]
+            if not absent:
+                r = 0.5
+                continue
+            step = ("add", c, p, rng.choice(absent))
+        else:
+            absent = [c for c in CATS if c not in cpv_dict]
+            if not absent:
+                r = 0.5
+                continue
+            step = ("add", rng.choice(absent), rng.choice(PKGS), rng.choice(VERS))
+        return step
+    return None
